@@ -42,6 +42,8 @@ class Dev(CliDevice):
         super().__init__(*a, **k)
         self.confirms = dict(confirms or {})      # command -> (question text, answer is hidden)
         self._q = None
+        self.probe = None                         # callable -> the driver's timeout settings right now
+        self.in_effect = []                       # (line, timeout_ops, timeout_transport) whenever a line reaches the device
         self.pw_attempts = pw_attempts            # how many passwords the device asks for before it gives up and re-displays the OLD prompt
         self.reject_text = reject_text
 
@@ -61,6 +63,11 @@ class Dev(CliDevice):
 
     def _execute(self, raw):
         line = raw.decode("utf-8", "replace")
+        if self.probe is not None:
+            try:
+                self.in_effect.append([line if self.pending is None and not (self._q and self._q[1]) else "<hidden>", *self.probe()])
+            except Exception:      # noqa
+                pass
         if self.pending is not None and line != self.enable_password and self.pw_tries + 1 >= self.pw_attempts:
             # rejected for the last time: error text, then the prompt of the level the session is still in
             self.pending, self.pw_tries = None, 0
@@ -159,6 +166,16 @@ def make_cuts(spec):
         return CutOne()
     if isinstance(spec, (list, tuple)) and spec[0] == "rng":
         return CutRng(random.Random(spec[1]), maxn=spec[2] if len(spec) > 2 else 7)
+    if isinstance(spec, (list, tuple)) and spec[0] == "list":          # explicit read sizes, then whole reads
+        from harness.simtransport import CutList
+        return CutList(spec[1])
+    if isinstance(spec, (list, tuple)) and spec[0] == "bulk":          # PRNG bursts: every read returns between lo and hi bytes
+        r, lo, hi = random.Random(spec[1]), spec[2], spec[3]
+
+        class _Bulk(Cuts):
+            def take(self, avail):
+                return min(avail, r.randint(lo, hi))
+        return _Bulk()
     raise ValueError(spec)
 
 
@@ -203,6 +220,9 @@ def build(scn, stack):
     else:
         conn, t = make_conn(plat, dev, stack=stack, cuts=make_cuts(scn.get("cuts")), faults=make_faults(scn.get("faults")),
                             on_empty="stall", **kw)
+    if "_search_depth" in scn:
+        conn.comms_prompt_search_depth = scn["_search_depth"]            # the driver's own setter (BaseChannelArgs.comms_prompt_search_depth)
+    dev.probe = lambda: (conn.timeout_ops, conn.timeout_transport)
     return conn, t, dev, donor
 
 
@@ -328,7 +348,7 @@ def _after(rec, conn):
 
 def finish(obs, t, dev):
     return {"ops": obs, "writes": [x[1].decode("latin-1") for x in t.trace if x[0] == "W"],
-            "exec_log": [list(x) for x in dev.exec_log], "mode": dev.mode_name(),
+            "exec_log": [list(x) for x in dev.exec_log], "mode": dev.mode_name(), "in_effect": [list(x) for x in dev.in_effect],
             "events": [x[0] for x in t.trace if x[0] not in ("W", "R")],
             "reads": len([x for x in t.trace if x[0] == "R"]),
             "alive": t.isalive()}
@@ -399,6 +419,10 @@ def compare(s, a):
                     d.append((f"op{i}:{x['op']}", f, x.get(f), y.get(f)))
     if s["exec_log"] != a["exec_log"]:
         d.append(("session", "exec_log", s["exec_log"][-3:], a["exec_log"][-3:]))
+    if s.get("in_effect") != a.get("in_effect"):
+        i = next((i for i, (x, y) in enumerate(zip(s["in_effect"], a["in_effect"])) if x != y), min(len(s["in_effect"]), len(a["in_effect"])))
+        d.append(("session", "timeout_ops/timeout_transport in effect while the device executed a line [line, timeout_ops, timeout_transport]",
+                  s["in_effect"][i:i + 1], a["in_effect"][i:i + 1]))
     if s["mode"] != a["mode"]:
         d.append(("session", "device_mode", s["mode"], a["mode"]))
     if s["alive"] != a["alive"]:
